@@ -141,10 +141,10 @@ def r1_evidence(ctx, f, rep, eff):
         n += 1
         if ws:
             rep.check(num is True and tgt is True and ws[0]['value'] == ('const', 'bool', 1, 'true') and
-                      p.ret == ('const', 'bool', 1, 'true'), 'C12-R1', b.nname, 'direct evidence recorded only for the '
+                      q.path_bool(p, p.ret) is True, 'C12-R1', b.nname, 'direct evidence recorded only for the '
                       'current probe number from the probed identity', site=ws[0]['span'], construct='direct-evidence')
         else:
-            rep.check(p.ret == ('const', 'bool', 0, 'false') or p.end != 'return', 'C12-R1', b.nname,
+            rep.check(q.path_bool(p, p.ret) is False or p.end != 'return', 'C12-R1', b.nname,
                       'no evidence -> returns false', construct='direct-no-evidence:%s:%s' % (num, tgt))
             if p.end == 'return':
                 # the other direction: an Ack with the current number from the probed member is never refused - whatever
@@ -215,11 +215,11 @@ def r1_evidence(ctx, f, rep, eff):
             rm = [x for x in p.events[i:] if x['kind'] == 'call' and x['res'] == 'alloc::vec::Vec::swap_remove'
                   and x['args'][0] == ('ref', pf('indirect'), True) and x['args'][1] == posval]
             rep.check(num is True and found is True and inc_ok and len(rm) == 1 and len(ws) == 1 and
-                      p.ret == ('const', 'bool', 1, 'true'), 'C12-R1', b.nname, 'indirect evidence counted once, only for '
+                      q.path_bool(p, p.ret) is True, 'C12-R1', b.nname, 'indirect evidence counted once, only for '
                       'the current probe number from an asked helper, which is then removed', site=wv['span'],
                       construct='indirect-evidence')
         else:
-            rep.check(p.ret == ('const', 'bool', 0, 'false') or p.end != 'return', 'C12-R1', b.nname, 'no evidence -> false',
+            rep.check(q.path_bool(p, p.ret) is False or p.end != 'return', 'C12-R1', b.nname, 'no evidence -> false',
                       construct='indirect-no-evidence:%s:%s' % (num, found))
             if p.end == 'return':
                 if found is None:
@@ -504,8 +504,8 @@ def r4_relay(ctx, f, rep):
                 ours = None
                 for c in q.conds_before(p, i):
                     es = q.eq_sides(c['expr'])
-                    if es and q.is_self_field_load(es[1], 'connection_state') and q.is_variant(es[2], 'ConnectionState', 'Connected'):
-                        conn = (q.cond_truth(c) == es[0])
+                    if q.conn_state_test(f, c, 'Connected') is not None:
+                        conn = q.conn_state_test(f, c, 'Connected')
                     if es and k in NAMED and named_vs_self(es, msg, k):
                         ours = (q.cond_truth(c) == es[0])
                 exp = RELAY.get(k)
@@ -553,8 +553,8 @@ def r4_relay(ctx, f, rep):
         conn = ours = None
         for c in p.conds():
             es = q.eq_sides(c['expr'])
-            if es and q.is_self_field_load(es[1], 'connection_state') and q.is_variant(es[2], 'ConnectionState', 'Connected'):
-                conn = (q.cond_truth(c) == es[0])
+            if q.conn_state_test(f, c, 'Connected') is not None:
+                conn = q.conn_state_test(f, c, 'Connected')
             if es and k in NAMED and named_vs_self(es, msg, k):
                 ours = (q.cond_truth(c) == es[0])
         if conn is not True or (k in NAMED and ours is not False):
@@ -564,6 +564,30 @@ def r4_relay(ctx, f, rep):
         rep.check(RELAY[k][0] in sent, 'C12-R4', hd.nname, 'a %s handled while Connected is always answered with %s' % (k, RELAY[k][0]),
                   construct='always-replies:%s' % k, facts={'sent': sent})
     rep.floor('C12-R4', nconv, 4, 'handle_data paths that end in one of the four reply arms')
+    # ... and nothing that happens to the rest of the datagram may get in the way: once the custom-broadcast tail has been
+    # handed to handle_custom_broadcasts, a path may leave handle_data without having dispatched on the kind only because the
+    # instance is not Connected - never because that tail was rejected (its error is reported after the reply)
+    nleave = 0
+    for p in ctx.paths(f, hd, 'none'):
+        if p.end != 'return':
+            continue
+        h, src, msg = header_parts(p)
+        hc = [i for i, e in enumerate(p.events) if e['kind'] == 'call' and e['res'] == 'Foca::handle_custom_broadcasts']
+        if h is None or not hc:
+            continue
+        ks = message_kinds(f, p, len(p.events), lambda v: v == msg)
+        conn = None
+        for c in p.events[hc[0]:]:
+            if c['kind'] == 'cond' and q.conn_state_test(f, c, 'Connected') is not None:
+                conn = q.conn_state_test(f, c, 'Connected')
+        undecided = [k for k in RELAY if k in ks and len(ks) > 1]
+        if not undecided:
+            continue
+        nleave += 1
+        rep.check(conn is False, 'C12-R4', hd.nname, 'after the custom-broadcast tail was handled, handle_data returns without '
+                  'dispatching on the kind only when the instance is not Connected', construct='tail-does-not-veto-reply',
+                  facts={'kinds_still_possible': sorted(ks)})
+    rep.floor('C12-R4', nleave, 1, 'handle_data paths that return after the custom-broadcast tail without dispatching')
     for k in RELAY:
         rep.floor('C12-R4', len(seen.get(k, [])), 1, 'reply occurrences for ' + k)
     for k in NAMED:
